@@ -190,6 +190,35 @@ theorem codecF_captured (m own : Mode) (bytes : Bytes) (f : Nat) (t : Tree)
   subst this
   exact rtf_of_rt m _ _ _ _ (rt_captureOne m b f t hp N hN)
 
+/-! ### values wrapped in an OCTET STRING (`WrappingOctetStringEncoder` / `OctetString::decode`) -/
+
+/-- `encode::Values::…` wrapped in an OCTET STRING writes a primitive OCTET STRING whose content is the
+    inner encoding -/
+theorem primLike_wrapped (m : Mode) (hm : m ≠ .cer) (own : Mode) (inner : Enc) (hi : C06.IntsOK inner = true)
+    (ib : Bytes) (hw : inner.write own = .ok ib) :
+    PrimLike m (.wrapped own inner) 0 4 ib := by
+  intro bytes h
+  rw [C06.write_wrapped m hm own inner hi, hw] at h
+  simp only [Bind.bind, Except.bind, C06.tlvR] at h
+  have e4 : Tag.OCTET_STRING = C12.tagOf 0 4 := by decide
+  by_cases hl : ib.length < 2 ^ 32
+  · rw [if_pos hl, e4, tagOf_write 0 4 (by omega) (by omega)] at h
+    cases h
+    exact ⟨hl, by simp [hdrOctets]⟩
+  · rw [if_neg hl] at h; cases h
+
+/-- **wrapped values round-trip**: the outer read returns the OCTET STRING holding exactly the inner
+    encoding, and decoding that content (what `OctetString::decode` does: the octet string as a source,
+    C07b) with the inner decoder returns the inner value with nothing left -/
+theorem wrapped_roundtrip (m own : Mode) (hm : m ≠ .cer) (T : List (Nat × Nat)) {β : Type} (inner : Enc)
+    (hi : C06.IntsOK inner = true) (dec : Cons → Prog (β × Cons)) (v : β) (h : CodecF own T inner dec v)
+    (ib : Bytes) (hw : inner.write own = .ok ib) (fuel : Nat) :
+    CodecF m [] (.wrapped own inner) (fun c => takeValueIf c (C12.tagOf 0 4) (OS.fromContent fuel)) (.prim ib) ∧
+    runG0 (decodeTop own dec) (St ib none) = .ok (v, St [] none) :=
+  ⟨CodecF.valueOf _ 0 4 ⟨by omega, by omega, by omega⟩ ib (primLike_wrapped m hm own inner hi ib hw) _ _
+      (leaf_octets' m fuel ib (fun h => absurd h hm)),
+   topF_roundtrip own T inner dec v h ib hw⟩
+
 /-- non-vacuity: a captured SEQUENCE { NULL } inside a SEQUENCE, DER -/
 def sampleC : Enc := .cons (C12.tagOf 0 16) (.seq .tuple [.captured [0x30, 0x02, 0x05, 0x00] .der])
 
